@@ -1,0 +1,29 @@
+//go:build verif
+
+// Machine-checked contracts of the CSV plugin (C18). Reader: every record csv.Reader.Read returns is emitted, in order, then
+// the reader's outcome (EOF completes, any other error is forwarded). Writer: every row is written once with
+// csv.Writer.Write; the count of rows written is emitted once, after a flush, before the terminal notification.
+// Comments only. Assumed (T4): encoding/csv.
+
+package rocsv
+
+//@ func NewCSVReader$1
+//@   props C18
+//@   binds ctx destination
+//@   track destination.* loop.*
+//@   ensures [end-of-input-completes|C18] res(call.Reader.Read, 1) == global_EOF ==> trace(loop.L0, destination.CompleteWithContext(ctx))
+//@   ensures [a-read-error-is-forwarded|C18] res(call.Reader.Read, 1) != global_EOF ==> trace(loop.L0, destination.ErrorWithContext(ctx, res(call.Reader.Read, 1)))
+
+//@ loop NewCSVReader$1#0
+//@   iteration ensures count(call.Reader.Read) == 1 && res(call.Reader.Read, 1) == nil
+//@   iteration ensures count(destination.NextWithContext) == 1 && before(call.Reader.Read, destination.NextWithContext) && arg(destination.NextWithContext, 0) == ctx && arg(destination.NextWithContext, 1) == res(call.Reader.Read, 0)
+
+//@ operator NewCSVWriter
+//@   props C18 C09
+//@   ghost n int = 0
+//@   inv count == n && n >= 0
+//@   track call.Writer.Write call.Writer.Flush
+//@   on next(ctx, row) when res(call.Writer.Write) == nil : emits call.Writer.Write(writer, row) ; n' = n + 1
+//@   on next(ctx, row) when res(call.Writer.Write) != nil : emits call.Writer.Write(writer, row), call.Writer.Flush(writer), Next(ctx, n), Error(ctx, res(call.Writer.Write))
+//@   on error(ctx, err) : emits call.Writer.Flush(writer), Next(ctx, n), Error(ctx, err)
+//@   on complete(ctx) : emits call.Writer.Flush(writer), Next(ctx, n), Complete(ctx)
